@@ -174,6 +174,73 @@ def only_identifiers(expr, allowed, what):
         raise GenError(f"xml_parser.c: {what}: unexpected identifiers {sorted(ids - set(allowed))} in `{norm(expr)}`")
 
 
+def bytebuf_guards(repo, inc):
+    """guards and index expressions of aws_byte_cursor_{left,right}_trim_pred, aws_byte_cursor_next_split,
+    aws_byte_cursor_split_on_char_n and aws_byte_buf_append, as cfun-translated stubs (state reads lifted to parameters)"""
+    path = os.path.join(repo, "source", "byte_buf.c")
+    if not os.path.exists(path):
+        raise GenError("source/byte_buf.c not found")
+    txt = strip_comments(open(path).read())
+    texts, docs = [], []
+
+    def stub(name, params, ret, expr, doc):
+        texts.append(_stub("verif_c12_" + name, params, (ret, expr), inc))
+        docs.append(doc)
+
+    # right trim: `while (trimmed.len > 0 && predicate(*(trimmed.ptr + trimmed.len - 1))) { --trimmed.len; }`
+    rt = fn_body(txt, "aws_byte_cursor_right_trim_pred")
+    m = one(r"\b(while|if)\s*\(\s*(.+?)\s*&&\s*predicate\s*\(\s*\*\s*\(\s*trimmed\.ptr\s*\+\s*(.+?)\)\s*\)\s*\)\s*\{\s*--trimmed\.len\s*;\s*\}",
+            rt, "loop of aws_byte_cursor_right_trim_pred")
+    g, ix = m.group(2).replace("trimmed.len", "len"), m.group(3).replace("trimmed.len", "len")
+    only_identifiers(g, ["len"], "right trim guard"); only_identifiers(ix, ["len"], "right trim index")
+    stub("right_trim_guard", [("len", "size_t")], "int", f"({g}) ? 1 : 0", f"`{m.group(1)} ({norm(m.group(2))} && predicate(…))` of aws_byte_cursor_right_trim_pred: the length guard")
+    stub("right_trim_index", [("len", "size_t")], "size_t", ix, f"… the byte tested: `*(trimmed.ptr + {norm(m.group(3))})`")
+    texts.append(f"def right_trim_is_loop : Bool := {'true' if m.group(1) == 'while' else 'false'}"); docs.append("… it is a `while` loop")
+    # left trim: `while (trimmed.len > 0 && predicate(*(trimmed.ptr))) { --trimmed.len; ++trimmed.ptr; }`
+    lt = fn_body(txt, "aws_byte_cursor_left_trim_pred")
+    m = one(r"\b(while|if)\s*\(\s*(.+?)\s*&&\s*predicate\s*\(\s*\*\s*\(\s*trimmed\.ptr\s*\)\s*\)\s*\)\s*\{\s*--trimmed\.len\s*;\s*\+\+trimmed\.ptr\s*;\s*\}",
+            lt, "loop of aws_byte_cursor_left_trim_pred")
+    g = m.group(2).replace("trimmed.len", "len")
+    only_identifiers(g, ["len"], "left trim guard")
+    stub("left_trim_guard", [("len", "size_t")], "int", f"({g}) ? 1 : 0", f"`{m.group(1)} ({norm(m.group(2))} && predicate(*(trimmed.ptr)))` of aws_byte_cursor_left_trim_pred: the length guard")
+    texts.append(f"def left_trim_is_loop : Bool := {'true' if m.group(1) == 'while' else 'false'}"); docs.append("… it is a `while` loop")
+    tp = fn_body(txt, "aws_byte_cursor_trim_pred")
+    one(r"left_trimmed\s*=\s*aws_byte_cursor_left_trim_pred\s*\(\s*source\s*,\s*predicate\s*\)\s*;\s*struct\s+aws_byte_cursor\s+dest\s*=\s*"
+        r"aws_byte_cursor_right_trim_pred\s*\(\s*&left_trimmed\s*,\s*predicate\s*\)\s*;", tp, "aws_byte_cursor_trim_pred = right trim of the left trim")
+    # next_split
+    ns = fn_body(txt, "aws_byte_cursor_next_split")
+    one(r"substr->ptr\s*\+=\s*substr->len\s*\+\s*1\s*;", ns, "next_split: advance past the previous piece")
+    m = one(r"if\s*\(([^{}]*?)\)\s*\{\s*AWS_ZERO_STRUCT\(\*substr\);\s*return\s+false;\s*\}\s*substr->len\s*=", ns, "next_split: done test")
+    e = m.group(1).replace("substr->ptr", "p").replace("input_str->ptr", "start")
+    only_identifiers(e, ["p", "input_end", "start"], "next_split done test")
+    stub("next_split_done", [("p", "size_t"), ("input_end", "size_t"), ("start", "size_t")], "int", f"({e}) ? 1 : 0",
+         f"`if ({norm(m.group(1))})` of aws_byte_cursor_next_split -> no further piece (pointers as integers)")
+    m = one(r"substr->len\s*=\s*(input_str->len\s*-\s*\(substr->ptr\s*-\s*input_str->ptr\))\s*;\s*\}\s*uint8_t\s*\*\s*new_location\s*=\s*memchr\s*\(\s*substr->ptr\s*,\s*split_on\s*,\s*substr->len\s*\)",
+            ns, "next_split: remainder length and search")
+    one(r"if\s*\(\s*new_location\s*\)\s*\{\s*substr->len\s*=\s*new_location\s*-\s*substr->ptr\s*;\s*\}", ns, "next_split: piece ends at the split character")
+    # split_on_char_n
+    sn = fn_body(txt, "aws_byte_cursor_split_on_char_n")
+    m = one(r"size_t\s+max_splits\s*=\s*([^;]+);", sn, "split_on_char_n: max_splits")
+    only_identifiers(m.group(1), ["n", "SIZE_MAX"], "max_splits")
+    stub("split_max", [("n", "size_t")], "size_t", m.group(1).replace("SIZE_MAX", "18446744073709551615UL"), f"`size_t max_splits = {norm(m.group(1))};` of aws_byte_cursor_split_on_char_n")
+    m = one(r"while\s*\(\s*(split_count\s*\S+\s*max_splits)\s*&&\s*aws_byte_cursor_next_split\s*\(\s*input_str\s*,\s*split_on\s*,\s*&substr\s*\)\s*\)", sn, "split_on_char_n: loop guard")
+    stub("split_continue", [("split_count", "size_t"), ("max_splits", "size_t")], "int", f"({m.group(1)}) ? 1 : 0", f"`while ({norm(m.group(1))} && next_split(…))`")
+    m = one(r"if\s*\(\s*(split_count\s*\S+\s*max_splits)\s*\)\s*\{\s*substr\.len\s*=\s*input_str->len\s*-\s*\(substr\.ptr\s*-\s*input_str->ptr\)\s*;\s*\}", sn,
+            "split_on_char_n: last piece takes the rest")
+    stub("split_is_last", [("split_count", "size_t"), ("max_splits", "size_t")], "int", f"({m.group(1)}) ? 1 : 0", f"`if ({norm(m.group(1))})` -> the piece takes the rest of the string")
+    sc = fn_body(txt, "aws_byte_cursor_split_on_char")
+    m = one(r"return\s+aws_byte_cursor_split_on_char_n\s*\(\s*input_str\s*,\s*split_on\s*,\s*([^,]+?)\s*,\s*output\s*\)\s*;", sc, "split_on_char -> split_on_char_n")
+    stub("split_on_char_n_arg", [], "size_t", m.group(1), f"`aws_byte_cursor_split_on_char_n(input_str, split_on, {norm(m.group(1))}, output)` of aws_byte_cursor_split_on_char")
+    # aws_byte_buf_append
+    ap = fn_body(txt, "aws_byte_buf_append")
+    m = one(r"if\s*\(([^{}]*?)\)\s*\{[^{}]*return\s+aws_raise_error\s*\(\s*AWS_ERROR_DEST_COPY_TOO_SMALL\s*\)\s*;\s*\}", ap, "aws_byte_buf_append: capacity test")
+    e = m.group(1).replace("to->capacity", "capacity").replace("to->len", "len").replace("from->len", "n")
+    only_identifiers(e, ["capacity", "len", "n"], "append capacity test")
+    stub("append_refused", [("capacity", "size_t"), ("len", "size_t"), ("n", "size_t")], "int", f"({e}) ? 1 : 0", f"`if ({norm(m.group(1))})` of aws_byte_buf_append -> refused")
+    one(r"memcpy\s*\(\s*to->buffer\s*\+\s*to->len\s*,\s*from->ptr\s*,\s*from->len\s*\)\s*;\s*to->len\s*\+=\s*from->len\s*;", ap, "aws_byte_buf_append: copy and length update")
+    return texts, docs
+
+
 def generate(repo, cfg_inc):
     src = os.path.join(repo, "source", "xml_parser.c")
     hdr = os.path.join(repo, "include", "aws", "common", "private", "xml_parser_impl.h")
@@ -303,6 +370,8 @@ def generate(repo, cfg_inc):
     if [tuple(p) for p in qinfo["params"]] != [("value", (8, False))] or qinfo["kind"] != "value":
         raise GenError("xml_parser.c: unexpected signature of the trim predicate")
 
+    bb_text, bb_docs = bytebuf_guards(repo, inc)
+
     lim_op = m_lim.group(2)
     body_op = m_body.group(1)
     L = []
@@ -356,5 +425,10 @@ def generate(repo, cfg_inc):
     a(stubs[2])
     a(f"/-- `{m_trim.group(1)}`, the predicate of `aws_byte_cursor_trim_pred(&att_val_pair[1], …)` -/")
     a(qt)
+    a("")
+    a("/-! Guards of the byte-cursor helpers the parser calls (source/byte_buf.c), cut out as stubs -/")
+    for doc, text in zip(bb_docs, bb_text):
+        a(f"/-- {doc} -/")
+        a(text)
     a("end AwsVerif.Gen.XmlConsts")
     return "\n".join(L) + "\n", c
